@@ -385,6 +385,11 @@ def check(ctx):
     except mir.AnchorLost as e:
         ctx.fail("C01.a", "anchor-lost:register_reactors", "", str(e))
 
+    # public trigger-firing entry points hand their own event / entity / type to the matching scheduler
+    api_wiring(ctx, prog)
+    # trigger bundles: every member of a tuple bundle is registered, reported and counted exactly once
+    bundle_tuples(ctx, prog)
+
     # ---- C01.b one command per registration ----
     n_reg_loops, n_drain = 0, 0
     for (body, L, events, src) in loops:
@@ -612,3 +617,84 @@ def carries_handle_clone(reg, op, clone_blocks, depth=0):
             if any(carries_handle_clone(reg, x, clone_blocks, depth + 1) for x in agg["ops"]):
                 return True
     return False
+
+
+def bundle_tuples(ctx, prog):
+    n = 0
+    for body in prog.bodies:
+        if body.kind != "assoc_fn" or not (body.raw.get("impl_trait") or "").endswith("::ReactionTriggerBundle"):
+            continue
+        st = body.raw.get("impl_self", "")
+        if not st.startswith("("):
+            continue
+        arity = 0 if st.strip() == "()" else len([x for x in st.strip("()").split(",") if x.strip()])
+        nm = body.raw.get("name")
+        if nm not in ("register_triggers", "collect_reactor_types", "len"):
+            continue
+        n += 1
+        ctx.touch(body)
+        calls = [(b, t) for b, t, fr in body.iter_calls() if fr and lib.tail(mir.fn_name(fr), 1) == nm]
+        fields = set()
+        for b, t in calls:
+            for o in origins(body, t["args"][0]):
+                if o[0] == "arg" and o[1] == 1 and len(o) == 3:
+                    fields.add(o[2])
+        cnt, _, _ = lib.event_counts(body, [b for b, t in calls])
+        ok = len(calls) == arity and len(fields) == arity and (cnt == {arity if arity <= 2 else 2} or arity == 0)
+        if ok and nm == "register_triggers":
+            ok = all(lib.originates_from_arg(body, t["args"][1], 2) and lib.originates_from_arg(body, t["args"][2], 3) for b, t in calls)
+        ctx.check(ok, "C01.a", "bundle(%d)::%s:every-member-once" % (arity, nm), "%s:%d" % (body.file, body.line),
+                  "%d members, %d delegated calls on %d distinct tuple fields" % (arity, len(calls), len(fields)),
+                  "tuple bundle of arity %d: %s delegates %d times over %d distinct members (a member would be skipped or handled twice)" % (arity, nm, len(calls), len(fields)))
+    ctx.floor("C01.a", n, 45, "tuple bundle impl methods (16 arities x 3)")
+
+
+API = {
+    # (impl self name, method) -> (scheduler name, expected generic parameter of the method, input shape)
+    ("ReactCommands", "broadcast"): ("schedule_broadcast_reaction", "E", "arg2"),
+    ("ReactCommands", "entity_event"): ("schedule_entity_event_reaction", "E", "tuple(arg2,arg3)"),
+    ("ReactCommands", "trigger_resource_mutation"): ("schedule_resource_mutation_reaction", "R", "unit"),
+    ("ReactCommands", "insert"): ("schedule_insertion_reaction", "C", "arg2"),
+    ("World", "broadcast"): ("schedule_broadcast_reaction", "E", "arg2"),
+    ("World", "entity_event"): ("schedule_entity_event_reaction", "E", "tuple(arg2,arg3)"),
+    ("React", "get_mut"): ("schedule_mutation_reaction", "C", "self.entity"),
+    ("React", "set_if_neq"): ("schedule_mutation_reaction", "C", "self.entity"),
+    ("React", "trigger_mutation"): ("schedule_mutation_reaction", "C", "arg1"),
+}
+
+
+def api_wiring(ctx, prog):
+    n = 0
+    for (ty, name), (sched, gparam, shape) in sorted(API.items()):
+        ms = [b for b in prog.bodies if b.kind == "assoc_fn" and b.raw.get("name") == name and lib.impl_self_name(b) == ty]
+        if not ms:
+            ctx.fail("C01.a", "api:%s::%s:anchor-lost" % (ty, name), "", "entry point not found")
+            continue
+        for m in ms:
+            ctx.touch(m)
+            found = []
+            for b, t, fr in m.iter_calls():
+                if fr is None or lib.tail(mir.fn_name(fr), 1) not in ("syscall", "syscall_with_validation"):
+                    continue
+                for a in t["args"]:
+                    fa = op_fn(a)
+                    if fa and lib.tail(mir.fn_name(fa), 1).startswith("schedule_"):
+                        found.append((b, t, fa))
+            n += 1
+            ok = len(found) == 1 and lib.tail(mir.fn_name(found[0][2]), 1) == sched and found[0][2].get("args", [])[:1] == [gparam]
+            if ok:
+                inp = found[0][1]["args"][1]
+                os_ = origins(m, inp)
+                if shape == "arg2":
+                    ok = lib.originates_from_arg(m, inp, 2)
+                elif shape == "arg1":
+                    ok = lib.originates_from_arg(m, inp, 1)
+                elif shape == "self.entity":
+                    ok = bool(os_) and all(o[0] == "arg" and o[1] == 1 and o[-1] == ".entity" for o in os_)
+                elif shape == "tuple(arg2,arg3)":
+                    ag = tuple_agg(m, inp)
+                    ok = ag is not None and len(ag["ops"]) == 2 and lib.originates_from_arg(m, ag["ops"][0], 2) and lib.originates_from_arg(m, ag["ops"][1], 3)
+            ctx.check(ok, "C01.a", "api:%s::%s:fires-own-trigger" % (ty, name), "%s:%d" % (m.file, m.line),
+                      "queues %s::<%s> with its own input" % (sched, gparam),
+                      "%s::%s does not hand its own event/entity to %s::<%s> (found %s)" % (ty, name, sched, gparam, [(lib.tail(mir.fn_name(f[2]), 1), f[2].get("args", [])[:1]) for f in found]))
+    ctx.floor("C01.a", n, 9, "public trigger-firing entry points")
